@@ -27,32 +27,220 @@ def movement_program(rng):
     return rng.choice(progs)
 
 
+# ---------------------------------------------------------------------------------------------
+# Builder / build layer: the clauses below are THEOREMS about the Coq model (Props/C15.v:
+# C15_all_used, C15_no_constant_operand, C15_no_self_operand, C15_and_unique, C15_const_gates,
+# C15_and_count_le, C15_and_free_requests_zero_and, C15_const_requests_no_gate,
+# C15_double_negation_is_free; re-checked by ck.prepare).  Here they are recomputed on the REAL
+# builder's output as the oracle pass: the property's own clauses (c04.structural_props) are
+# violations; the clauses that go beyond the property text can only fail when the model no longer
+# describes the code, so they are reported as correspondence breaks.
+
+REQ_COST = {"xor": 1, "and": 1, "not": 0, "or": 3, "eq": 1, "mux": 3, "adder": 7}   # Builder/StructSpec.v req_cost
+                                                                                   # (adder = xor,and,xor,and,or)
+
+def theorem_clauses(ssa, dedup):
+    """Clauses proved for the model beyond the property text (final numbering)."""
+    ig = [int(x) for x in sx_field(ssa, "ig")[1:]]
+    gates = sx_field(ssa, "gates")[1:]
+    n = sum(ig)
+    bad = []
+    if len(gates) < 2 or gates[0] != ["x", "0", "0"] or gates[1] != ["n", str(n)]:
+        bad.append(f"the first two gates are not Xor(0,0), Not({n})")
+    for i, g in enumerate(gates[2:], 2):
+        ops = [int(x) for x in g[1:]]
+        if any(o in (n, n + 1) for o in ops):
+            bad.append(f"gate {n + i} {g} has a constant operand")
+        if dedup and g[0] == "x" and ops[0] == ops[1]:
+            bad.append(f"XOR gate {n + i} has the same wire twice (dedup on)")
+    return bad
+
+
+def wires_of(res):
+    t = sx_parse("(" + res + ")")[0]
+    w = sx_field(t, "wires")
+    return None if w is None else [int(x) for x in w[1:]]
+
+
+def request_oracles(reqs, wires, ssa):
+    """and-count bound, AND-free sequences, double negation, constant-only requests."""
+    bad = []
+    def res(o):
+        return wires[int(o[1:])] if isinstance(o, str) and o.startswith("h") else int(o)
+    first = []          # first handle index of each request
+    h = 0
+    free = True
+    all_const = True
+    for k, ops in reqs:
+        first.append(h)
+        rv = [res(o) for o in ops]
+        if k in ("and", "or"):
+            free = free and (rv[0] <= 1 or rv[1] <= 1)
+        elif k == "mux":
+            free = free and (rv[0] <= 1 or rv[1] == rv[2])
+        elif k == "adder":
+            free = False
+        all_const = all_const and all(v <= 1 for v in rv)
+        if k == "not" and isinstance(ops[0], str) and ops[0].startswith("h"):
+            src = int(ops[0][1:])
+            # which request produced handle src?
+            for j in range(len(first) - 1):
+                kj, oj = reqs[j]
+                if first[j] == src and kj == "not" and wires[h] != res(oj[0]):
+                    bad.append(f"not(not x) returned wire {wires[h]} instead of {res(oj[0])} (requests {j},{len(first)-1})")
+        h += 2 if k == "adder" else 1
+    gates = sx_field(ssa, "gates")[1:]
+    ands = sum(1 for g in gates if g[0] == "a")
+    cost = sum(REQ_COST[k] for k, _ in reqs)
+    if ands > cost:
+        bad.append(f"{ands} AND gates exceed the per-request bound {cost}")
+    if free and ands:
+        bad.append(f"an AND-free request sequence built {ands} AND gates")
+    if all_const and (len(gates) != 2 or any(w > 1 for w in wires)):
+        bad.append("requests on constants only created a gate or returned a non-constant wire")
+    return bad, free, all_const
+
+
+# the closed examples of Props/C15.v (vm_compute there), run against the real builder
+FIXED = [
+    ("d0", True, [3], [("and", [2, 3]), ("xor", ["h0", 4]), ("and", [3, 4]), ("not", ["h1"])], ["h3"],
+     "(gates (x 0 0) (n 3) (a 0 1) (x 5 2) (n 6))"),
+    ("d1", False, [2], [("and", [2, 3]), ("and", [3, 2])], ["h0", "h1"],
+     "(gates (x 0 0) (n 2) (a 0 1) (a 1 0))"),
+    ("d2", False, [2], [("and", [2, 3]), ("and", [2, 3]), ("xor", ["h0", "h1"])], ["h2"],
+     "(gates (x 0 0) (n 2) (x 1 1) (a 0 4))"),
+    ("d3", True, [3], [("xor", [3, 4]), ("and", [2, 3]), ("and", [2, 4]), ("xor", ["h1", "h2"])], ["h0", "h3"],
+     "(gates (x 0 0) (n 3) (x 1 2) (x 1 2) (a 0 6))"),
+    ("d4", True, [2], [("xor", [2, 3]), ("not", ["h0"]), ("mux", [1, "h0", "h1"]), ("and", [1, "h2"]),
+                       ("or", ["h0", 0]), ("mux", [0, 2, "h1"])], ["h1", "h2", "h3", "h4", "h5"],
+     "(gates (x 0 0) (n 2) (x 0 1) (n 4))"),
+    ("d5", True, [3], [("and", [2, 3]), ("and", [2, 4]), ("xor", ["h0", "h1"])], ["h0", "h1", "h2"],
+     "(gates (x 0 0) (n 3) (a 0 1) (a 0 2) (x 1 2) (a 0 7))"),
+    ("d6", True, [2], [("not", [2]), ("not", ["h0"]), ("not", ["h1"]), ("xor", [2, 3]), ("not", ["h3"]),
+                       ("not", ["h4"])], ["h0", "h1", "h2", "h4", "h5"],
+     "(gates (x 0 0) (n 2) (n 0) (x 0 1) (n 5))"),
+]
+
+
+def layer_jobs(ck, quick):
+    """Request sequences aimed at the request-level theorems: AND-free sequences, requests on
+    constants only, negation chains."""
+    import gen_builder as GB
+    rng = ck.rng
+    jobs, meta = [], {}
+    dist = {"fixed_examples": 0, "and_free": 0, "const_only": 0, "negation_chains": 0}
+    for jid, dedup, inputs, reqs, outs, _ in FIXED:
+        jobs.append(GB.fmt_job(jid, dedup, inputs, reqs, outs)); meta[jid] = (sum(inputs), reqs, outs, dedup)
+        dist["fixed_examples"] += 1
+
+    def seq(kind, n, L):
+        reqs = []
+        inputs = list(range(2, 2 + n))
+        def opnd(const_only=False):
+            pool = [0, 1] if const_only else ([0, 1] + inputs * 2)
+            if reqs and rng.random() < 0.6:
+                return "h%d" % rng.randint(max(0, len(reqs) - 6), len(reqs) - 1)
+            return rng.choice(pool)
+        while len(reqs) < L:
+            if kind == "const":
+                k = rng.choice(["xor", "and", "not", "or", "eq", "mux"])
+                reqs.append((k, [opnd(True) for _ in range(GB.ARITY[k])]))
+            elif kind == "free":
+                k = rng.choice(["xor", "xor", "not", "eq", "and", "or", "mux", "mux"])
+                if k in ("and", "or"):
+                    ops = [opnd(), rng.choice([0, 1])]
+                    rng.shuffle(ops)
+                elif k == "mux":
+                    if rng.random() < 0.25:
+                        d = opnd(); ops = [opnd(), d, d]
+                    else:
+                        ops = [rng.choice([0, 1]), opnd(), opnd()]
+                else:
+                    ops = [opnd() for _ in range(GB.ARITY[k])]
+                reqs.append((k, ops))
+            else:   # negation chains inside arbitrary traffic
+                if reqs and rng.random() < 0.5:
+                    reqs.append(("not", ["h%d" % (len(reqs) - 1)] if rng.random() < 0.7 else [opnd()]))
+                else:
+                    k = rng.choice(["xor", "and", "not", "or", "eq", "mux"])
+                    reqs.append((k, [opnd() for _ in range(GB.ARITY[k])]))
+        return reqs
+
+    for kind, key, cnt in (("free", "and_free", 400 if quick else 20000), ("const", "const_only", 100 if quick else 3000),
+                           ("neg", "negation_chains", 300 if quick else 20000)):
+        for i in range(cnt):
+            n = rng.choice([1, 2, 3, 4])
+            L = rng.choice([2, 4, 8, 16, 30])
+            reqs = seq(kind, n, L)
+            outs = ["h%d" % j for j in range(len(reqs))]
+            if rng.random() < 0.5:
+                outs = [rng.choice(outs) for _ in range(rng.randint(1, 4))]
+            dedup = rng.random() < 0.7
+            jid = f"{key[0]}{i}"
+            jobs.append(GB.fmt_job(jid, dedup, [n], reqs, outs)); meta[jid] = (n, reqs, outs, dedup)
+            dist[key] += 1
+    return jobs, meta, dist
+
+
 def run(ck):
     quick = ck.tier == "quick"
     ck.prepare("C15")
     if not (ck.harness_ok and ck.model_ok):
-        return ck.finish(trusted=COMMON_TRUSTED)
+        return ck.finish(level="proof", trusted=COMMON_TRUSTED)
     # 1. builder level (shares the C04 jobs): structural clauses on every built circuit
     jobs, meta, dist, rs, ml = c04.run_builder_jobs(ck, "c15", quick)
+    ljobs, lmeta, ldist = layer_jobs(ck, quick)
+    lrs, lml = run_both(ljobs, "c15x", timeout_per_job=0.5)
+    jobs = jobs + ljobs
+    meta.update(lmeta); rs.update(lrs); ml.update(lml); dist.update(ldist)
+    expected = {f[0]: f[5] for f in FIXED}
     checked = 0
     mism = 0
+    n_free = n_const = 0
     for j in jobs:
         jid = job_id(j)
         r, m = rs.get(jid, ""), ml.get(jid, "")
-        if re.sub(r"\s*\(truth .*\)$", "", r) != m:
+        rcmp = re.sub(r"\s*\(truth .*\)$", "", r)
+        if rcmp != m:
             mism += 1
+            if mism <= 3:
+                ck.violation("model and implementation disagree (returned wires / built circuit)",
+                             {"job": j, "rust": rcmp[:3000], "model": m[:3000], "correspondence": "builder jobs"},
+                             found_input=False)
         ssa, _, _ = c04.circuit_of(r)
         if ssa is None:
+            if jid in lmeta:
+                ck.violation("the real builder did not build a circuit for a well-formed request sequence",
+                             {"job": j, "rust": r[:2000]})
             continue
         checked += 1
         n, reqs, outs, dedup = meta[jid]
         for bad in c04.structural_props(ssa, dedup)[:1]:
             ck.violation("built circuit violates a structural clause: " + bad, {"job": j, "rust": r[:3000]})
+        # clauses proved for the model that go beyond the property text: a failure means the model
+        # no longer describes the code (correspondence break with a concrete job attached)
+        for bad in theorem_clauses(ssa, dedup)[:1]:
+            ck.violation("built circuit contradicts a theorem proved for the builder model: " + bad,
+                         {"job": j, "rust": r[:3000]}, found_input=False)
+        wires = wires_of(r)
+        if wires is not None:
+            rb, free, allc = request_oracles(reqs, wires, ssa)
+            n_free += free; n_const += allc
+            for bad in rb[:1]:
+                ck.violation("request-level theorem of the builder model fails on the real builder: " + bad,
+                             {"job": j, "rust": r[:3000]}, found_input=False)
+        if jid in expected and expected[jid] not in r:
+            ck.violation("closed example of Props/C15.v: the real builder's circuit differs from the model's",
+                         {"job": j, "rust": r[:3000], "expected_gates": expected[jid]}, found_input=False)
     ck.obligation("correspondence: built circuits equal the model's (builder jobs)", mism == 0, f"{mism} differing jobs")
+    ck.obligation("generator health: AND-free and constant-only request sequences are produced",
+                  n_free >= 100 and n_const >= 50, f"and_free={n_free} const_only={n_const}")
     # 2. compiled programs: structural clauses with dedup on
     srcs = PC.corpus_sources()
     ck.rng.shuffle(srcs)
-    srcs = [s for s in srcs if len(s[1]) < 1500][:40 if quick else 300] + PC.generated_sources(ck, 60 if quick else 1500)
+    import scenarios
+    srcs = scenarios.all_sources() + [s for s in srcs if len(s[1]) < 1500][:40 if quick else 300] + \
+        PC.generated_sources(ck, 60 if quick else 1500) + PC.generated_sources(ck, 40 if quick else 1000, style="panic")
     cj = [f"(compile p{i} (src {quote(s)}))" for i, (_, s) in enumerate(srcs)]
     cr = run_jobs(GVRUN, cj, "c15.c", timeout_per_job=3.0)
     compiled = 0
@@ -86,7 +274,11 @@ def run(ck):
                 "(destructuring, re-packing, constant-index reads/writes, constant-trip loops, equal-width casts) must "
                 "have zero AND gates",
         "built_circuits_checked": checked, "compiled_programs_checked": compiled, "movement_programs": mv_ok,
+        "and_free_sequences": n_free, "constant_only_sequences": n_const,
+        "builder_layer": "theorems of Props/C15.v (all_used, no_constant_operand, no_self_operand, and_unique, "
+                         "and_count_le, and_free_requests_zero_and, const_requests_no_gate, double_negation_is_free) "
+                         "recomputed on the real builder's output for every builder job, plus the closed examples d0..d6",
         "input_distribution": dist,
     })
     ck.samples = [mv[0], jobs[0][:300]]
-    return ck.finish(trusted=COMMON_TRUSTED)
+    return ck.finish(level="proof", trusted=COMMON_TRUSTED)
